@@ -253,3 +253,16 @@ func (p *Prog) Callees(site ssa.CallInstruction) []*ssa.Function {
 	sort.Slice(out, func(i, j int) bool { return out[i].String() < out[j].String() })
 	return out
 }
+
+// namedType looks a named type up in any package of the loaded program
+// (including the standard library packages it imports).
+func (p *Prog) namedType(pkgPath, name string) types.Type {
+	for _, sp := range p.SSA.AllPackages() {
+		if sp.Pkg.Path() == pkgPath {
+			if o := sp.Pkg.Scope().Lookup(name); o != nil {
+				return o.Type()
+			}
+		}
+	}
+	return nil
+}
